@@ -28,7 +28,7 @@ HARNESS_ENV = None
 def gen_case(rng, nops):
     nobj = rng.choice([1, 2, 3, 4, 6, 9, 12])
     ivs = rng.sample([1, 2, 3, 5, 7, 10, 20, 50], rng.choice([1, 2, 3]))   # few distinct intervals => many shared deadlines
-    ops = []
+    ops = ['engine ' + rng.choice(['epoll', 'select'])]
 
     def act(self):
         k = rng.randrange(nobj)
@@ -64,7 +64,7 @@ def gen(rng, tier):
     yield ['new -', 'init 0 0 o', 'en 5', 'frob', 'new x0', 'init 0 5 q', 'adv x']           # malformed stream
     yield ['new -', 'init 0 10 o', 'en 0', 'adv 9', 'adv 1', 'adv 100', 'en 0', 'adv 10']   # one-shot: not early, once, re-enable fresh
     yield ['new -', 'init 0 3 p', 'en 0', 'adv 10', 'adv 2', 'dis 0', 'adv 50']             # late wake-up: 3 catch-up firings
-    yield ['new d1', 'new -', 'init 0 5 p', 'init 1 5 p', 'en 0', 'en 1', 'adv 5', 'adv 5']  # same deadline; one disables the other
+    yield ['engine select', 'new d1', 'new -', 'init 0 5 p', 'init 1 5 p', 'en 0', 'en 1', 'adv 5', 'adv 5']  # same deadline; one disables the other
     yield ['new x1', 'new -', 'new -', 'init 0 5 o', 'init 1 5 o', 'init 2 6 o', 'en 2', 'en 1', 'en 0', 'adv 6']  # destroy a due timer from a callback; heap middle removal
     for _ in range(n):
         yield gen_case(rng, rng.choice([6, 12, 25, 50]))
